@@ -33,10 +33,13 @@ def run(args, rep):
     c2 = [c for c in c2 if len(c['blk']) == 2]
     total = len(c1) + len(c2)
     rng.shuffle(c2)
-    scoped = [c for c in c2 if any(st[0] in ('dbg_bind', 'assert_bind', 'dbg_global') for st in c['blk']) and any(st[0] in ('use_zq', 'nl_zq', 'set_zq') for st in c['blk'])]
+    scoped = [c for c in c2 if any(st[0] == 'dbg_yield' for st in c['blk']) and 'remove_debug' in c['opts']]
+    scoped += [c for c in c2 if any(st[0] in ('dbg_bind', 'assert_bind', 'dbg_global', 'ann_zq') for st in c['blk']) and any(st[0] in ('use_zq', 'nl_zq', 'set_zq', 'dbg_bind', 'assert_bind') for st in c['blk'])]
     scoped += [c for c in c2 if c['ctx'] in ('dataclass_after_inner', 'namedtuple_after_inner', 'class_after_dataclass') and any(st[0] in ('annval', 'annnoval') for st in c['blk'])
                and ('ann_class' in c['opts'])]
-    cases = c1 + (c2[:12000] + [c for c in scoped if c not in c2[:12000]] if args.tier == 'quick' else c2)
+    rng.shuffle(scoped)
+    scoped = scoped[:6000]
+    cases = c1 + (c2[:10000] + [c for c in scoped if c not in c2[:10000]] if args.tier == 'quick' else c2)
     jobs = [{'id': 's%d' % k, 'ctx': c['ctx'], 'env': c['env'], 'blk': c['blk'], 'opts': c['opts'], 'm': c['m']} for k, c in enumerate(cases)]
     # every case in which the module uses the __doc__ name, once per spelling of that use (read, augmented assignment, assignment, read in a function, del)
     for j in list(jobs):
@@ -73,6 +76,7 @@ def run(args, rep):
         own_scope = infn or o['ctx'] in CLASS_CONTEXTS
         d27 = (((infn and ('use_zq' in kinds or 'nl_zq' in kinds)
                  and (('remove_debug' in o['opts'] and 'dbg_bind' in kinds) or ('remove_asserts' in o['opts'] and 'assert_bind' in kinds)))
+                or (infn and 'remove_debug' in o['opts'] and 'dbg_yield' in kinds)
                 or (own_scope and 'remove_debug' in o['opts'] and 'dbg_global' in kinds and any(k in kinds for k in ('use_zq', 'nl_zq', 'set_zq', 'dbg_bind', 'assert_bind'))))
                and v[0] in ('c05:output-suite-not-among-the-documented-rewrites', 'c05:behaviour-under-O-differs', 'c05:minify-raised:raise:SyntaxError'))
         rep.violation(key=('D20:' if promoted else 'D27:' if d27 else '') + shape + '|' + v[0], clause=v[0],
@@ -86,7 +90,7 @@ def run(args, rep):
     nsym = len(set(tuple(st) for c in c1 for st in c['blk']))
     nctx = len(set(c['ctx'] for c in c1))
     rep.rule = ('cases = (context, environment, block, options) exported by TLC from Suite.tla: every block of length 1 (%d cases) and length 2 (%d cases; '
-                'quick: seeded 12 000 plus every case that pairs a name-binding assert / __debug__ block with a lookup of the name) over %d statement symbols in %d contexts, '
+                'quick: seeded 10 000 plus up to 6 000 of the cases that pair a name-binding assert / __debug__ block with a lookup of the name) over %d statement symbols in %d contexts, '
                 'options = every subset of those relevant to the block with the rest all off / all on; '
                 'non-trivial = distinct cases whose output block differs from the input block' % (len(c1), len(c2), nsym, nctx))
     rep.extra.update({'cases_enumerated_by_tlc': total, 'cases_replayed': len(cases), 'model_drift_cases': drift,
